@@ -1,5 +1,5 @@
 SPECIFICATION Spec
 CONSTANTS
   W = 2
-  EmitPayLen = 4
+  EmitPayLens = {0, 4}
 CHECK_DEADLOCK FALSE
